@@ -147,8 +147,11 @@ CLAIMED = {
             'the exhaustive decision table (incl. draws equal to the rate) and seeded histories on the recorder\'s own Random(seed)',
             'Kernel-checked for every program and recorder state: skipped classes never touch the cassette; discarded => abort; '
             'otherwise save iff forced (and not ignored) or rate >= 1 or the next draw <= rate; exactly one draw iff needed; '
-            'forcing never leaks into the next run. The long-run-fraction sentence (law of large numbers) is NOT formalised: '
-            'partial; the tie compares kept decisions with the seeded stream draw by draw.',
+            'forcing never leaks into the next run. Kept fraction, counting form (induction on the history): over any history of '
+            'N recorded, undiscarded, unforced operations of a class with rate < 1 exactly N draws are consumed in order and the '
+            'number kept equals the number of those draws within the rate. That this fraction tends to the rate for independent '
+            'uniform draws (law of large numbers) is NOT formalised: partial; the tie compares kept decisions with the seeded '
+            'stream draw by draw.',
             'Trusted: Lean kernel; recorder model tied by differential execution; random.Random is a stream of exact rational '
             'draws; floats compared as exact dyadic rationals.', 'DESIGN.md 6/C17'),
     'C18': ('Lean 4 theorems: the saved recording carries class, exception flag of this run, clock difference, incomplete = no '
